@@ -40,14 +40,14 @@ impl Hash for Function {
 impl Function {
     #[must_use]
     pub fn name(&self) -> LabelString {
-        // sorted, so that the name does not depend on the hashing of the label set
-        let mut names = self
+        // in the order of the program, so that the name depends neither on the hashing of
+        // the label set nor on how the labels are spelled
+        let names = self
             .entry
-            .labels()
-            .into_iter()
-            .map(|x| x.to_string())
+            .labels_in_order()
+            .iter()
+            .map(std::string::ToString::to_string)
             .collect::<Vec<String>>();
-        names.sort();
         LabelString::new(names.join(", "))
     }
 
